@@ -40,6 +40,34 @@ func treeSession() *fqx.Session {
 }
 
 // jqDecode decodes data through the jq layer and returns the root decode value.
+// jqDecodeSliced decodes data as a SLICE of a larger binary (`.[p:p+n] | decode(F)`): the slice is the input.
+func jqDecodeSliced(s *fqx.Session, data []byte, format string, force bool, prefix, suffix []byte) (interp.DecodeValue, error, *fqx.PanicInfo) {
+	whole := append(append(append([]byte(nil), prefix...), data...), suffix...)
+	in, berr := interp.NewBinaryFromBitReader(bitio.NewBitReader(whole, -1), 8, 0)
+	if berr != nil {
+		return nil, berr, nil
+	}
+	var outs []any
+	var err error
+	pi := guardStack(func() {
+		outs, err = s.Eval(in, fmt.Sprintf(`.[%d:%d] | decode(%q; {force: %v})`, len(prefix), len(prefix)+len(data), format, force))
+	})
+	if pi != nil {
+		return nil, nil, pi
+	}
+	if err != nil {
+		return nil, err, nil
+	}
+	if len(outs) != 1 {
+		return nil, fmt.Errorf("decode produced %d outputs", len(outs)), nil
+	}
+	dv, ok := outs[0].(interp.DecodeValue)
+	if !ok {
+		return nil, fmt.Errorf("decode produced %T", outs[0]), nil
+	}
+	return dv, nil, nil
+}
+
 func jqDecode(s *fqx.Session, data []byte, format string, force bool) (interp.DecodeValue, error, *fqx.PanicInfo) {
 	// the input is handed over as a binary value (what `open` yields, minus the context-bound file
 	// reader whose context ends with the evaluation that opened it)
@@ -137,6 +165,11 @@ func pathsOf(ps []pickedValue) []any {
 func refBits(p pickedValue, top *decode.Value, input []byte) (bstr, error) {
 	r := p.V.InnerRange()
 	if p.BufRoot == top && !(p.V.IsRoot && p.V != top) {
+		if p.V != top {
+			// ranges of the top-level buffer are relative to where the decoded input starts (non-zero when the input
+			// was a slice of a larger binary)
+			r.Start -= top.Range.Start
+		}
 		if r.Start < 0 || r.Stop() > int64(len(input))*8 {
 			return bstr{}, fmt.Errorf("range %s outside the %d-byte input", r, len(input))
 		}
@@ -187,7 +220,17 @@ func c05Tree(run *ev.Run, j treeJob, k int) {
 	s := treeSession()
 	data := j.Data()
 	rng := gen.New(run.Seed).Fork(0xC05000 + uint64(k))
-	dv, err, pi := jqDecode(s, data, j.Format, j.Force)
+	var dv interp.DecodeValue
+	var err error
+	var pi *fqx.PanicInfo
+	sliced := j.Mut.Kind == "none" && k%5 == 2
+	if sliced {
+		// the input is a slice of a larger binary (`.[p:p+n] | decode`): the slice is "the input"
+		dv, err, pi = jqDecodeSliced(s, data, j.Format, j.Force, rng.Bytes(1+rng.Intn(9)), rng.Bytes(rng.Intn(6)))
+		run.Count("decode:input-is-a-slice-of-a-larger-binary", 1)
+	} else {
+		dv, err, pi = jqDecode(s, data, j.Format, j.Force)
+	}
 	run.Eval(1)
 	if pi != nil {
 		run.Count("decode:panicked (C06's subject)", 1)
@@ -253,6 +296,12 @@ func c05Tree(run *ev.Run, j treeJob, k int) {
 				where := "top-buffer"
 				if p.BufRoot != root || (p.V.IsRoot && p.V != root) {
 					where = "nested-buffer"
+				}
+				if sliced {
+					where += ":sliced-input"
+					if p.V == root {
+						where += ":root"
+					}
 				}
 				run.Violation(name+":bits-differ:"+kind+":"+where, fmt.Sprintf("%s: %s of %s (range %s, root=%v): got %d bits unit %d (err %v) %s, want %d bits %s", j.Label, name, valuePathStr(p.V), p.V.Range, p.V.IsRoot, got.n, unit, berr, got, want.n, want), map[string]any{"case": j.Label, "path": valuePathStr(p.V)})
 				continue
@@ -391,9 +440,12 @@ func c05BitsFormat(run *ev.Run, s *fqx.Session, j treeJob, dv interp.DecodeValue
 // jqPathExpr renders a harness path as a jq expression (only plain names and indices reach here).
 func jqPathExpr(path []any) string {
 	var sb strings.Builder
-	for _, k := range path {
+	for i, k := range path {
 		switch kk := k.(type) {
 		case int:
+			if i == 0 {
+				sb.WriteString(".") // `[0]` alone would be an array literal
+			}
 			fmt.Fprintf(&sb, "[%d]", kk)
 		case string:
 			fmt.Fprintf(&sb, ".%s", strconv.Quote(kk))
